@@ -29,7 +29,7 @@ CONSTANTS Callers,    \* set of caller names (strings)
           RankOf      \* [Callers -> 1..9]
 
 Cap == 4 * B
-Id(p, i) == RankOf[p] * 10 + i
+Id(p, i) == RankOf[p] * 1000 + i       \* stream (caller) = id \div 1000
 
 VARIABLES ch,         \* Seq(id): channel `in`
           done,       \* BOOLEAN: channel `done` closed
@@ -166,7 +166,7 @@ Quiescent == xpc = "closed" /\ \A p \in Callers : pc[p] \in {"idle", "finished"}
 AtMostOnce == NoDup(delivered \o dead)
 \* messages of one caller are delivered in send order
 PerCallerFIFO == \A i, j \in 1..Len(delivered) :
-                    (i < j /\ delivered[i] \div 10 = delivered[j] \div 10) => delivered[i] < delivered[j]
+                    (i < j /\ delivered[i] \div 1000 = delivered[j] \div 1000) => delivered[i] < delivered[j]
 \* only accepted messages reach the receiver or the error handler
 OnlyAccepted == Ids(delivered) \cup Ids(dead) \subseteq accepted /\ accepted \cap rejected = {}
 \* every accepted message is somewhere (sanity of the transcription)
